@@ -278,7 +278,7 @@ pub const DEF: PropDef = PropDef {
     components_real: &["sway_lsp::ServerState, did_open/did_change/did_save handlers", "sway_lsp::core::document::{TextDocument, Documents}", "compile worker (running, not judged)", "tokio::fs on a 1-thread blocking pool"],
     components_stub: &["JSON-RPC transport and tower-lsp router (dispatcher model)", "LSP client", "entropy (seeded shim)", "ps (fake)"],
     assumptions: &["positions beyond the end of a line and positions inside a surrogate pair are never generated (their meaning is not fixed by the protocol)", "an invalid change is only ever the last change of a notification"],
-    default_runs: (3000, 80000),
+    default_runs: (12000, 200000),
     default_wall: (240, 2400),
     default_workers: 4,
     level: "exploration",
